@@ -43,26 +43,37 @@ RULE = ("cases = (a) documented spellings of boundary and random IPv4 addresses 
 MANIFEST = dict(
     level_text=("Machine-checked Lean 4 theorems over a statement-by-statement model of parse_subnetport (both regular "
                 "expressions as deterministic parsers including the one back-tracking case, Unicode \\d/\\w tables "
-                "generated from CPython, int() with its digit limit, width and family rules), parse_ipport, "
-                "parse_hostport (rsplit/split, ipaddress, urlparse) and the SSHUTTLE_ARGS+argv concatenation with "
-                "argparse's last-store-wins, on top of a library model of glibc's numeric getaddrinfo "
-                "(inet_aton 1-4 part forms, inet_pton, inet_ntop). Theorems: every IPv4 spelling of every address "
-                "with every width<=32 and port range parses to that address; widths above the family maximum are "
-                "usage errors; for every string the argparse layer ends in ok or a usage error; hostport / listen "
-                "decomposition; command line overrides environment. The model is tied to the code on every run by a "
-                "differential run of the real functions and an oracle built on Python's ipaddress module."),
+                "generated from CPython, int() with its digit limit, width and family rules), parse_subnetport_file, "
+                "parse_ipport, parse_hostport (rsplit/split, the ipaddress module, urlparse) and the SSHUTTLE_ARGS+argv "
+                "concatenation with argparse's last-store-wins, on top of a library model of glibc's numeric getaddrinfo "
+                "(inet_aton 1-4 part forms, inet_pton, inet_ntop). Full theorems (no _partial left): every IPv4 spelling "
+                "(1-4 parts, decimal/octal/hex) of every address with every width<=32 and port/range parses to that address "
+                "(C16_v4_spellings); every textual IPv6 form - '::' at any position, leading zeros, either case, embedded "
+                "IPv4 tail, bare or bracketed, /width, :port, :port-port - is read by inet_pton as the address it denotes, "
+                "by induction over the group list (C16_v6_pton), and parse_subnetport / parse_ipport return exactly that "
+                "address, width and ports (C16_v6_spellings, C16_ipport_v6, C16_ipport); widths above the family maximum "
+                "are usage errors; for every string the argparse layer ends in ok or a usage error (C16_reject_class_total); "
+                "parse_hostport round trip for every (user, password, host, port) with host a name, dotted quad or any "
+                "IPv6 spelling bare or bracketed, passwords containing ':' and '@', absent parts (C16_hostport_roundtrip, "
+                "C16_hostport_userinfo), with the ambiguous texts named (C16_hostport_outside); every line of a subnet file "
+                "keeps its own ports; command line overrides environment, --listen replaced not merged. The model is tied "
+                "to the code on every run by a differential run of the real functions and an oracle built on Python's "
+                "ipaddress module and on the manual's meaning."),
     level_note=("Trusted: Lean kernel; axioms propext/Classical.choice/Quot.sound only; the correspondence harness; "
-                "the glibc/CPython library models (validated by their own streams, not verified); name resolution "
-                "and the non-ASCII idna branch are oracle parameters; the regex engine is validated against, not "
-                "derived from. shlex.split of SSHUTTLE_ARGS and argparse's option recognition are outside. The model "
-                "follows the repaired IPv6 expression (fix commit 16080e8: class [\\w:.]); the "
-                "pre-fix code rejects embedded-IPv4 literals (finding F15, C16_v6_embedded_orig_false). The general "
-                "IPv6 spelling theorem and the host:port branch of parse_hostport are _partial (instances + "
-                "correspondence only). parse_subnetport_file is modelled (fileLoop: ASCII white space, \\n line ends) "
-                "and the environment/argv merge of --listen is modelled as store-then-parse (listenAfterMerge); what "
-                "cmdline.main finally hands to client.main (includes, excludes, listeners) is decided by the oracle on "
-                "the real code, built from the manual's meaning, not by the model."),
-    technique="Lean 4 proof (parser round-trip over all addresses/widths/ports, case analysis over all strings) + differential correspondence with the real parsers + ipaddress oracle",
+                "the glibc/CPython library models (inet_aton/pton/ntop, ipaddress, urlsplit, idna fast path: validated by "
+                "their own streams, not verified); name resolution and the non-ASCII idna branch are oracle parameters; "
+                "the regex engine is validated against, not derived from. shlex.split of SSHUTTLE_ARGS and argparse's "
+                "option recognition are outside. The model follows the repaired IPv6 expression (class [\\w:.]); the "
+                "pre-fix code rejects embedded-IPv4 literals (finding F15, C16_v6_embedded_orig_false). Not covered by a "
+                "general theorem (instances and correspondence only): the undocumented unbracketed 'addr:port-port' form "
+                "that needs regex back-tracking; IPv4 spellings in full-width digits (they depend on the idna oracle); "
+                "'%zone' suffixes (zone handling is not modelled); non-ASCII host parts in parse_hostport's urlparse "
+                "branch. Outside the hostport round trip because the text is ambiguous: unbracketed IPv6 followed by "
+                "':port', ':' in the user name, a name written with a port that reads as a dotted quad or is not lower "
+                "case (it comes back canonicalised / lower-cased). parse_subnetport_file is modelled for ASCII white "
+                "space and \\n line ends; what cmdline.main finally hands to client.main (includes, excludes, "
+                "listeners) is decided by the oracle on the real code, built from the manual's meaning."),
+    technique="Lean 4 proof (parser round trips by induction over digit/group lists for all addresses, widths, ports, users, passwords; case analysis over all strings) + differential correspondence with the real parsers + ipaddress oracle",
 )
 DRIVER_TARGETS = ['SshuttleModel.Code.Args', 'SshuttleModel.Code.InetAton']
 ASSUMPTIONS = [
